@@ -41,6 +41,8 @@ func inj(tag string, q byte) scen.Step {
 func handle(h int) scen.Step { return scen.Step{Op: "handle", H: h} }
 
 var workloads = map[string]workload{
+	// the broker stops reading while an acknowledgement is awaited and the reader goroutine is writing a PUBACK
+	"stall": {Pre: []scen.Step{handle(1)}, Steps: []scen.Step{pubw(1, "a"), pub(1, "b"), op("stallinject"), pub(2, "c"), pub(1, "d")}},
 	// established subscriptions, then a cut: with a session-less broker the next connection re-subscribes
 	"resub": {Steps: []scen.Step{subw(ss("u/a", 1)), subw(ss("u/b", 2)), pubw(1, "x"), op("cut"), pub(1, "y"), pub(2, "z")}},
 	// QoS 2 messages accepted before the first connection exists (and while its establishment fails)
